@@ -236,6 +236,27 @@ impl LruManager {
             crate::StorageError::Cache(format!("invalid LRU file: {}", path.display()))
         })?;
 
+        // An entry is in use exactly when it is linked into the list. The key bytes
+        // cannot tell: an all-zero key is a valid key. Walking the list also rejects
+        // files whose indices point outside the entry array or form a cycle.
+        let invalid =
+            || crate::StorageError::Cache(format!("invalid LRU file: {}", path.display()));
+        let mut linked = vec![false; entries.len()];
+        let mut prev = LRU_SENTINEL;
+        let mut idx = header.lru_tail;
+        while idx != LRU_SENTINEL {
+            let entry = entries.get(idx as usize).ok_or_else(invalid)?;
+            if linked[idx as usize] || entry.prev != prev {
+                return Err(invalid());
+            }
+            linked[idx as usize] = true;
+            prev = idx;
+            idx = entry.next;
+        }
+        if header.mru_head != prev {
+            return Err(invalid());
+        }
+
         // Rebuild the key map and free list
         self.header = header;
         self.key_map.clear();
@@ -245,7 +266,7 @@ impl LruManager {
         self.entries = entries;
 
         for (i, entry) in self.entries.iter().enumerate() {
-            if entry.is_active() {
+            if linked[i] {
                 self.key_map.insert(entry.ekey, i as u32);
             } else {
                 self.free_list.push(i as u32);
@@ -366,9 +387,7 @@ impl LruManager {
         let mut idx = self.header.lru_tail;
         while idx != LRU_SENTINEL {
             let entry = &self.entries[idx as usize];
-            if entry.is_active() {
-                callback(&entry.ekey);
-            }
+            callback(&entry.ekey);
             idx = entry.next;
         }
     }
